@@ -127,13 +127,15 @@ E13_TEXT = {
     "C03": " The output chain builder and execute_fields alignment are decided by abstract evaluation over type shapes / selections (as C01.R9, C01.R6).",
     "C04": " get_input_coercer is interpreted over every type shape up to three wrappers and compared as a term with the prescribed composition.",
     "C05": " get_literal_coercer is interpreted over every type shape up to three wrappers and compared as a term with the prescribed composition; literals.input_object_coercer over the 125 combinations of per-field answers; sync_arguments_coercer on failing awaitables.",
-    "C07": " The single-root traversal is interpreted over every selection-set shape up to three fragments deep (266 shapes).",
-    "C11": " Extension.bake merges are interpreted on abstract extensions: every member list of the extended type is what it was followed by the extension's members; register_sdl is interpreted on a modelled file system (text, file, list, directory; with and without module SDL).",
+    "C06": " The fragment-cycle rule is interpreted on every spread graph over three fragments (1703 graphs quick, 5321 thorough; undefined targets, repeated and nested spreads) and reports exactly the graphs in which a fragment reaches itself; extension merges include directive-only extensions.",
+    "C07": " The single-root traversal is interpreted over every selection-set shape up to three fragments deep (266 shapes); the fragment-cycle rule on every spread graph over three fragments.",
+    "C11": " Extension.bake merges are interpreted on abstract extensions: every member list of the extended type is what it was followed by the extension's members; register_sdl is interpreted on a modelled file system (text, file, list, directory; with and without module SDL). The introspection hiding executor is interpreted on single elements and lists of up to three items (plain value, element without hooks, shown, hidden): a hidden single element is null, hidden items are dropped, each chain is awaited once with (element, ctx, info) and the context coercer.",
     "C14": " The single-root traversal is interpreted over every selection-set shape up to three fragments deep; the source's operands are resolved on paths back to the producers' results.",
     "C13": " wraps_with_directives is interpreted on 1500 combinations of directive lists, flags and callables and compared as a term with the prescribed chain (first declared outermost).",
     "C08": " sync_arguments_coercer is interpreted on zero to three awaitables, each succeeding or failing (one entry per operand, the value or the exception itself; a cancellation propagates).",
 }
 R4_TEXT = {
+    "C02": " Below the field funnel no error is built with a path of its own (the funnel, which knows the failing position, is the only place that locates).",
     "C01": " The variable map the argument tables read has no entry for an omitted variable without default (C04.R2).",
     "C03": " Enum and possible-type lookups are decided on paths for the key exactly as given; outside its catch-all Engine.execute / subscribe evaluate only the cached parse of the query as received.",
     "C04": " Every item of a list variable goes through the inner coercer (no item is answered from another item's result).",
